@@ -107,6 +107,7 @@ func GenPlan(t *rapid.T, profile string, k Knobs) *Plan {
 	}
 	p.Horizon = time.Duration(rapid.IntRange(minH, maxH).Draw(t, "horizonH"))*h + ttl
 	p.SnapEvery = odd(h/3 + 7*time.Microsecond)
+	p.ExpirySlack = rapid.SampledFrom([]time.Duration{0, 0, 0, 50 * time.Millisecond, 250 * time.Millisecond, 300 * time.Millisecond}).Draw(t, "expiry_slack")
 	n := rapid.IntRange(max(1, k.MinInst), max(1, k.MaxInst)).Draw(t, "n")
 	groups := 1
 	if k.MaxGroups > 1 {
@@ -281,7 +282,11 @@ func GenPlan(t *rapid.T, profile string, k Knobs) *Plan {
 			cur := at("n_at", 0, p.Horizon/2)
 			for j := 0; j < nn; j++ {
 				kind := rapid.SampledFrom([]string{ActDisconnect, ActDisconnect, ActReconnect, ActReconnect, ActClosed}).Draw(t, "n_kind")
-				p.Timeline = append(p.Timeline, Action{At: cur, Kind: kind, Inst: i})
+				na := Action{At: cur, Kind: kind, Inst: i}
+				if rapid.IntRange(0, 4).Draw(t, "n_burst") == 0 {
+					na.Then = rapid.SliceOfN(rapid.SampledFrom([]string{ActDisconnect, ActReconnect}), 1, 3).Draw(t, "n_then")
+				}
+				p.Timeline = append(p.Timeline, na)
 				switch rapid.IntRange(0, 4).Draw(t, "n_gap") {
 				case 0:
 					cur += 1
